@@ -545,7 +545,8 @@ def execute(plan: dict) -> dict:
             peer_ip = str(negotiated.neighbor.session.peer_address)
         except Exception:  # noqa: BLE001
             peer_ip = '?'
-        rec = {'type': int(message), 'len': len(data), 'exc': None, 'calls': 0, 't': w.loop.mono, 'peer': peer_ip}
+        sessno = next((len(sp_.sessions) - 1 for sp_, k_ in zip(speakers, kinds) if k_['peer_ip'] == peer_ip), -1)
+        rec = {'type': int(message), 'len': len(data), 'exc': None, 'calls': 0, 't': w.loop.mono, 'peer': peer_ip, 'sessno': sessno}
         unpack_log.append(rec)
         old = sys.getprofile()
         sys.setprofile(prof)
@@ -723,7 +724,7 @@ def judge(w, plan, kinds, speakers, sent, h, unpack_log, violations, probes) -> 
             sess = r['sess']
             if r['valid'] and plan['scripts'][i]['state'] == 'established':
                 # the decoder's own verdict on this very body (matched by peer, type and length in decoding order)
-                mine = [u for u in unpack_log if u['peer'] == k['peer_ip'] and u['type'] == r['type'] and u['len'] == r['len'] and u['t'] >= r['at']]
+                mine = [u for u in unpack_log if u['peer'] == k['peer_ip'] and u.get('sessno') == sess.index and u['type'] == r['type'] and u['len'] == r['len'] and u['t'] >= r['at']]
                 if mine and mine[0]['exc'] is not None:
                     violations.append(viol('C03/valid-message-refused', f'session {i}: a valid {r["item"]["gen"]} UPDATE of {r["len"]} bytes was refused: {mine[0]["exc"]}', gen=r['item']['gen']))
                     return
